@@ -840,3 +840,17 @@ func (c *Ctx) borrow(from string, run func(), pick func(o *coreObl) (string, boo
 		save.Functions[f] = true
 	}
 }
+
+// gtMinus1: is the integer v > −1 on this path? Decided from the facts about (v, −1) or, equivalently for integers, about (v, 0)
+// (`x >= 0` is the same test as `x > -1`).
+func gtMinus1(p *pw.Path, e *pw.Engine, v *pw.Val) tri {
+	r1 := p.Rel(v, e.IntConst(-1))
+	r0 := p.Rel(v, e.IntConst(0))
+	switch {
+	case r1&^pw.RGt == 0 || r0&pw.RLt == 0:
+		return triTrue
+	case r1&pw.RGt == 0 || r0&^pw.RLt == 0:
+		return triFalse
+	}
+	return triUnknown
+}
